@@ -260,7 +260,7 @@ theorem compAt_hit_irrel (s : SortSpec) (i : Nat) (d h : Match) (n : Nat) :
     compAt s i d { h with hit := n } = compAt s i d h := rfl
 
 /-- filtering a sorted list keeps it the sorted list of the filtered elements -/
-theorem isort_filter {lt : Match → Match → Bool} {key : Match → Nat} (ho : Ord lt key)
+theorem isort_filter {κ : Type} {lt : Match → Match → Bool} {key : Match → κ} (ho : Ord lt key)
     (P : Match → Bool) (ms : List Match) (hk : (ms.map key).Nodup) :
     isort lt (ms.filter P) = (isort lt ms).filter P := by
   have hk' : ((ms.filter P).map key).Nodup := by
@@ -270,5 +270,26 @@ theorem isort_filter {lt : Match → Match → Bool} {key : Match → Nat} (ho :
   · exact isort_sorted ho _ hk'
   · exact List.Pairwise.filter _ (isort_sorted ho ms hk)
   · exact (isort_perm lt _).trans ((isort_perm lt ms).filter P).symm
+
+end Bleve.Collector
+
+namespace Bleve.Collector
+open Bleve.TopN
+
+/-- any total-preorder comparison whose zero class is contained in "same key" gives a strict order
+    that is total on distinct keys -/
+theorem ord_of_isCmp {α κ : Type} (c : α → α → Int) (hc : IsCmp c) (key : α → κ)
+    (hz : ∀ a b, c a b = 0 → key a = key b) : Ord (fun a b => decide (c a b < 0)) key := by
+  refine ⟨?_, ?_, ?_⟩
+  · intro a; simp [hc.refl]
+  · intro a b d h1 h2
+    simp only [decide_eq_true_eq] at h1 h2 ⊢
+    exact hc.strictL a b d h1 (by omega)
+  · intro a b hne
+    simp only [decide_eq_true_eq]
+    have ha := hc.anti a b
+    by_cases h0 : c a b = 0
+    · exact absurd (hz a b h0) hne
+    · omega
 
 end Bleve.Collector
